@@ -75,6 +75,7 @@ def mandatory_bins(tier):
     b += ["block_key%d" % k for k in (16, 24, 32)]
     b += ["mode_" + m for m in ("ecb", "cbc", "cfb", "ofb", "ctr")]
     b += ["cfb_seg%d" % s for s in range(1, 17)]
+    b += ["block_mixed_call_sequence_on_one_object"]
     b += ["cbc_default_iv", "cfb_default_iv", "ofb_default_iv", "ctr_default_counter"]
     b += ["ctr_wraparound", "ctr_carry", "all_compositions", "empty_chunk", "feeder_pkcs7", "feeder_none", "stream_bs1", "stream_bs15", "stream_bs16", "stream_bs17", "stream_bs8192", "stream_with_short_reads",
           "adapter_history", "adapter_shared_key_iv", "adapter_trailing_zero_plaintext", "adapter_len_mod16_0", "adapter_len_mod16_1", "adapter_len_mod16_15", "adapter_explicit_iv", "adapter_default_iv", "adapter_long_data", "global_state_unchanged"]
@@ -347,6 +348,25 @@ def run_shard(spec, ctx):
                 ctx.violation("block_decrypt_not_inverse:key%d" % kl, {"got": pt, "expected": blk}, rp)
             if pt2 != ossl.aes_ecb(key, blk, False):
                 ctx.violation("block_decrypt_differs:key%d" % kl, {"got": pt2}, rp)
+            if i % 4 == 3:
+                # one long-lived cipher object used for a mixed sequence of encryptions and decryptions (also through an ECB
+                # mode object): every call must give the value a fresh object gives
+                seq = []
+                try:
+                    obj = A(key) if i % 8 == 3 else ns.aes.AESModeOfOperationECB(key)
+                    for _ in range(rng.randrange(3, 9)):
+                        enc = bool(rng.getrandbits(1))
+                        b = rng.randbytes(16)
+                        got = bytes((obj.encrypt if enc else obj.decrypt)(b))
+                        seq.append("E" if enc else "D")
+                        if got != ossl.aes_ecb(key, b, enc):
+                            ctx.violation("block_result_depends_on_earlier_calls_on_the_same_object:key%d" % kl, {"calls_so_far": "".join(seq), "object": type(obj).__name__}, dict(rp, seq="".join(seq)))
+                            break
+                    ctx.bin("block_mixed_call_sequence_on_one_object")
+                    ctx.mon("AES.encrypt", seq.count("E"))
+                    ctx.mon("AES.decrypt", seq.count("D"))
+                except Exception as e:
+                    ctx.violation("block_cipher_raises", {"exc": fmt_exc(e), "seq": "".join(seq)}, rp)
             if i == 0:
                 ctx.sample({"kind": "block", "key": key, "block": blk, "ct": ct})
         return
